@@ -222,7 +222,12 @@ TD_MAX_US = 999999999 * 86400000000 + 86399999999
 DT_MAX_MS = 253402300799999
 
 UTF8_SAMPLES = ["a", "Z", "0", " ", "é", "ß", "Ж", "中", "€", "퟿", "",
-                "￿", "\U00010000", "\U0001f600", "\U0010ffff", "\x00", "\x7f", "\u0080", "߿", "ࠀ"]
+                "￿", "\U00010000", "\U0001f600", "\U0010ffff", "\x00", "\x7f", "\u0080", "߿", "ࠀ",
+                # characters that text layers like to treat specially: byte order mark, noncharacter, zero width
+                # space, line separators, combining mark, control characters
+                "\ufeff", "\ufffe", "\u200b", "\u2028", "\u0301", "\n", "\r", "\t", "\x1a", "\ue000"]
+# what a codec with a signature / newline translation / stripping would eat at the START or END of a string
+EDGE_CHARS = ["\ufeff", "\ufffe", " ", "\n", "\r\n", "\x00", "\t", "\u200b"]
 
 
 class Gen:
@@ -265,12 +270,22 @@ class Gen:
 
     def utf8(self, n_bytes_target):
         out = bytearray()
+        tail = b""
+        if n_bytes_target >= 4 and self.r.random() < 0.12:
+            e = self.r.choice(EDGE_CHARS).encode()
+            if self.r.random() < 0.6:
+                out += e                       # leading
+                self.count("str:edge-leading")
+            else:
+                tail = e                       # trailing
+                self.count("str:edge-trailing")
+        n_bytes_target -= len(tail)
         while len(out) < n_bytes_target:
             ch = self.r.choice(UTF8_SAMPLES).encode()
             if len(out) + len(ch) > n_bytes_target:
                 ch = b"x"
             out += ch
-        return bytes(out)
+        return bytes(out) + tail
 
     def prim(self, kafka: str, canonical=True):
         r = self.r
